@@ -1,4 +1,6 @@
 """C02 - reported error estimate is honest; full_output record is self-consistent (partial)."""
+import warnings
+
 import numpy as np
 
 from . import exprs, pipe
@@ -212,6 +214,46 @@ def single_step_cases(ctx):
     return False
 
 
+def small_median_cases(ctx):
+    """Estimates whose MEDIAN is tiny (a function with values of order 1e-9, or a point next to a stationary point) on a dyadic step ladder
+    8, 4, ..., 2**-11 over a 1-periodic function: the estimates from the integer steps alias to exactly 0 and agree to the last bit -- a
+    spurious 'converged' minority which only the inter-quartile outlier test removes.  The value returned must be the accurate one, with
+    an estimate that covers its error (bound: K x estimate + 1e-6 x |exact derivative|)."""
+    import numdifftools as nd
+    two_pi = 2 * np.pi
+    ladder = dict(step=2.0 ** -11, num_steps=15, step_ratio=2)
+    amp = 1e-9
+    z = np.array([0.1, 0.2])
+    cases = [
+        ('Derivative', 'sin(2 pi x) at 0.25 + 1e-10 (next to a stationary point)', lambda t: np.sin(two_pi * t), 0.25 + 1e-10, two_pi * np.cos(two_pi * (0.25 + 1e-10))),
+        ('Derivative', '1e-9 sin(2 pi x) at 0.1', lambda t: amp * np.sin(two_pi * t), 0.1, amp * two_pi * np.cos(two_pi * 0.1)),
+        ('Gradient', '1e-9 (sin(2 pi x) + cos(2 pi y)) at (0.1, 0.2)', lambda v: amp * (np.sin(two_pi * v[0]) + np.cos(two_pi * v[1])), z,
+         amp * two_pi * np.array([np.cos(two_pi * z[0]), -np.sin(two_pi * z[1])])),
+        ('Jacobian', '1e-9 (sin(2 pi x), cos(2 pi y)) at (0.1, 0.2)', lambda v: amp * np.array([np.sin(two_pi * v[0]) + 0.0 * v[1], np.cos(two_pi * v[1]) + 0.0 * v[0]]), z,
+         amp * two_pi * np.array([[np.cos(two_pi * z[0]), 0.0], [0.0, -np.sin(two_pi * z[1])]])),
+    ]
+    for cname, what, f, x, exact in cases:
+        try:
+            with warnings.catch_warnings():
+                warnings.simplefilter('ignore')
+                got, info = getattr(nd, cname)(f, full_output=True, **ladder)(x)
+        except Exception:   # noqa
+            continue
+        ctx.count(1, ('honesty-small-median', cname))
+        err = np.abs(np.asarray(got, dtype=float) - np.asarray(exact, dtype=float))
+        est = np.asarray(info.error_estimate, dtype=float)
+        est = np.broadcast_to(est.reshape(np.shape(err)) if est.size == err.size else est, np.shape(err))
+        tol = K_HONEST * est + 1e-6 * np.max(np.abs(exact))
+        if not np.all(err <= tol):
+            i = int(np.argmax(err - tol))
+            return ctx.violation('honesty:small-median:%s' % cname,
+                                 'nd.%s(%s, step=2**-11, num_steps=15, step_ratio=2, full_output=True): returned %r with error_estimate %r, exact %r (the estimates built from the integer steps are exactly 0: a spurious converged group)' % (
+                                     cname, what, float(np.ravel(got)[i]), float(np.ravel(est)[i]), float(np.ravel(exact)[i])),
+                                 {'class': cname, 'f': what, 'x': np.asarray(x).tolist(), 'options': {'step': 2.0 ** -11, 'num_steps': 15, 'step_ratio': 2},
+                                  'value': np.asarray(got).tolist(), 'error_estimate': np.asarray(est).tolist(), 'exact': np.asarray(exact).tolist()})
+    return False
+
+
 def nan_inside_cases(ctx):
     """one stencil point of one trial step (not the largest) hits a removable singularity exactly: the estimates contain NaN in the
     middle of the step sequence.  The result is finite, so its error estimate must be finite, non-negative and honest."""
@@ -401,6 +443,7 @@ def run(ctx):
     ctx.cov['skipped'] = skipped
     nan_inside_cases(ctx)
     single_step_cases(ctx)
+    small_median_cases(ctx)
     honesty_sweep(ctx, ctx.n(15, 300) if not ctx.broken else 120)
     ctx.assumptions += ['PARTIAL: proved = the estimate is non-negative for every input and branch and belongs to the returned value (same index); "true error <= K x estimate + floor" is NOT a theorem for any finite-sample estimator: explored by the sweep with K = 1e4, floor = 1e-9 x local scale (calibrated on the unchanged tree, worst observed ratio 3.6e2)',
                         'every constant of the estimator (12.7062047361747, EPS*10, tol*10, trim 10, 1.5 IQR, 1e-8, the tie rule) is pinned in the model: changing one breaks the bit-exact tie',
